@@ -67,6 +67,53 @@ class ObjectBuiltin:
         yield st, o
 
 
+class InstanceDict:
+    """`obj.__dict__` of an abstract instance: the instance attributes (not those of its class object); update() copies attributes"""
+
+    def __init__(self, obj):
+        self.obj = obj
+
+    def _attrs(self, interp, st):
+        o = interp._relocate(st, self.obj)
+        return {k: v for k, v in o.attrs.items() if k != "__class__"}
+
+    def getattr(self, interp, st, attr, node):
+        if attr == "update":
+            def upd(i, s, a, k, n):
+                (other,) = a
+                if isinstance(other, InstanceDict):
+                    new = other._attrs(i, s)
+                elif isinstance(other, PDict) and all(isinstance(x, str) for x in other.items):
+                    new = dict(other.items)
+                else:
+                    raise Unsupported("__dict__.update with a value that is not an instance dict or a dict with literal keys")
+                me = i._relocate(s, self.obj)
+                me.attrs.update(new)
+                me.attrs.update({kk: vv for kk, vv in k.items()})
+                return None
+            yield st, _CallHook(upd)
+        elif attr == "copy":
+            yield st, _CallHook(lambda i, s, a, k, n: PDict(self._attrs(i, s)))
+        elif attr in ("items", "keys", "values", "get"):
+            yield st, BuiltinVal("dict." + attr, PDict(self._attrs(interp, st)))
+        else:
+            raise Unsupported(f"__dict__.{attr}")
+
+    def getitem(self, interp, st, i, node):
+        a = self._attrs(interp, st)
+        if not isinstance(i, str) or i not in a:
+            raise Unsupported("__dict__[...] with an unknown key")
+        return a[i]
+
+
+class _CallHook:
+    def __init__(self, fn):
+        self.fn = fn
+
+    def call(self, interp, st, args, kwargs, node):
+        yield st, self.fn(interp, st, args, kwargs, node)
+
+
 class ModuleVal:
     def __init__(self, name):
         self.name = name
